@@ -1,7 +1,10 @@
 ------------------------------- MODULE Interval -------------------------------
-(* Intervals over extended rationals: [lo |-> x, hi |-> y], lo # +inf, hi # -inf, lo <= hi, no NaN *)
+(* Intervals over extended rationals: [lo |-> x, hi |-> y].  A VALID interval has no NaN, lo # +inf,
+   hi # -inf and lo <= hi (the invariant of ommx::Bound).  The Hull* operators give the EXACT range
+   (closure) of the pointwise operation; an implementation is sound iff its result encloses the hull. *)
 EXTENDS Rat, FiniteSets, TLC
-Valid(b) == b.lo # NaN /\ b.hi # NaN /\ b.lo # PInf /\ b.hi # NInf /\ XLeq(b.lo, b.hi)
+WellTyped(b) == IsNum(b.lo) /\ IsNum(b.hi)
+Valid(b) == WellTyped(b) /\ b.lo # PInf /\ b.hi # NInf /\ XLeq(b.lo, b.hi)
 XMin(a, b) == IF XLeq(a, b) THEN a ELSE b
 XMax(a, b) == IF XLeq(a, b) THEN b ELSE a
 XMinSet(S) == CHOOSE x \in S : \A y \in S : XLeq(x, y)
@@ -11,10 +14,14 @@ XAdd(a, b) == IF a[2] = 0 THEN a ELSE IF b[2] = 0 THEN b ELSE RAdd(a, b)
 XMul(a, b) == IF a = Zero \/ b = Zero THEN Zero
               ELSE IF a[2] = 0 \/ b[2] = 0 THEN (IF RSign(a) * RSign(b) > 0 THEN PInf ELSE NInf)
               ELSE RMul(a, b)
+Unbounded == [lo |-> NInf, hi |-> PInf]
+Point(x) == [lo |-> x, hi |-> x]
 HullAdd(a, b) == [lo |-> XAdd(a.lo, b.lo), hi |-> XAdd(a.hi, b.hi)]
 HullMul(a, b) == LET c == { XMul(a.lo, b.lo), XMul(a.lo, b.hi), XMul(a.hi, b.lo), XMul(a.hi, b.hi) }
                  IN [lo |-> XMinSet(c), hi |-> XMaxSet(c)]
-HullScale(a, k) == IF RSign(k) > 0 THEN [lo |-> XMul(a.lo, k), hi |-> XMul(a.hi, k)] ELSE [lo |-> XMul(a.hi, k), hi |-> XMul(a.lo, k)]
+HullScale(a, k) == IF RSign(k) > 0 THEN [lo |-> XMul(a.lo, k), hi |-> XMul(a.hi, k)]
+                   ELSE [lo |-> XMul(a.hi, k), hi |-> XMul(a.lo, k)]                       \* k # 0
+HullShift(a, k) == [lo |-> XAdd(a.lo, k), hi |-> XAdd(a.hi, k)]
 RECURSIVE XPow(_,_)
 XPow(x, n) == IF n = 0 THEN One ELSE XMul(x, XPow(x, n-1))
 HullPow(a, n) ==
@@ -25,4 +32,16 @@ HullPow(a, n) ==
   ELSE [lo |-> Zero, hi |-> XMax(XPow(a.lo, n), XPow(a.hi, n))]
 Encloses(out, h) == Valid(out) /\ XLeq(out.lo, h.lo) /\ XLeq(h.hi, out.hi)
 In(x, b) == XLeq(b.lo, x) /\ XLeq(x, b.hi)
+\* value inside the bound up to the SDK's absolute tolerance 1e-7 (check_bound)
+InTol7(x, b) == /\ (b.lo[2] = 0 \/ RLeqE7(RSub(b.lo, x)))
+                /\ (b.hi[2] = 0 \/ RLeqE7(RSub(x, b.hi)))
+NearestToZero(b) == IF XLeq(Zero, b.lo) THEN b.lo ELSE IF XLeq(b.hi, Zero) THEN b.hi ELSE Zero
+\* integers of an interval
+HasInteger(b) == b.lo[2] = 0 \/ b.hi[2] = 0 \/ RCeil(b.lo) <= RFloor(b.hi)
+IsIntegral(x) == x[2] = 0 \/ x[2] = 1
+\* out is an integer rounding of a that keeps every integer of a
+IntRoundOK(a, out) ==
+  /\ Valid(out) /\ IsIntegral(out.lo) /\ IsIntegral(out.hi)
+  /\ (IF a.lo[2] = 0 THEN out.lo = NInf ELSE XLeq(out.lo, R(RCeil(a.lo))))
+  /\ (IF a.hi[2] = 0 THEN out.hi = PInf ELSE XLeq(R(RFloor(a.hi)), out.hi))
 =============================================================================
